@@ -2,7 +2,7 @@
 # usage: tools/try_benign.sh <dir with patch.diff> [Cxx ...]   (default: all 20)
 # Applies a behaviour-preserving patch to a scratch copy of /repo and runs the quick checks against it: every check must exit 0
 # (a non-zero exit is a FALSE ALARM of the machinery). Evidence files are saved/restored.
-S=$1; shift
+S=$(readlink -f "$1"); shift
 [ $# -eq 0 ] && set -- C01 C02 C03 C04 C05 C06 C07 C08 C09 C10 C11 C12 C13 C14 C15 C16 C17 C18 C19 C20
 R=/tmp/benrepo.$$
 rm -rf $R; mkdir -p $R; rsync -a --exclude .git /repo/ $R/
